@@ -103,7 +103,7 @@ def run(ctx, mode):
         hr = ctx.harness("stun", race=True)
         ftrace = ctx.path("client_free_%s.ndjson" % mode)
         nfree = 10 if ctx.quick() else 80
-        rc, out = ctx.drive(hr, "TestVerifClientFree", env={"VERIF_TRACE_OUT": ftrace, "VERIF_FREE_RUNS": nfree},
+        rc, out = ctx.drive(hr, "TestVerifClientFree", env={"VERIF_TRACE_OUT": ftrace, "VERIF_FREE_RUNS": nfree, "VERIF_FREE_CHURN": 0 if ctx.quick() else 3000},
                             timeout=1800, ok_rc=(0, 1, 2, 66))
         races = [r for r in re.findall(r"WARNING: DATA RACE[\s\S]{0,4000}?==================", out)]
         if races:
